@@ -112,14 +112,13 @@ def rule_cond(ctx, rep):
     start = hb.lookup('start')[1]
     cip = hb.lookup('check_interrupts_paragraph')[1]
     rets = set()
-    for n in walk_function(start.node):
-        if isinstance(n, ast.Return) and isinstance(n.value, ast.Constant):
-            rets.add(n.value.value)
-        elif isinstance(n, ast.Return):
-            rets.add('<expr:%s>' % ast.unparse(n.value))
+    for p_ in blockproto.explore_classfunc(model, hb, 'start', lambda it: [AbsStr(label='line')]):
+        if p_.raised is not None or p_.truncated:
+            continue
+        rets.add(p_.ret if isinstance(p_.ret, (int, bool)) or p_.ret is None else '<abstract:%r>' % (p_.ret,))
     conds = {r for r in rets if isinstance(r, int) and not isinstance(r, bool)}
     rep.instance('R-INT-COND')
-    ok = conds == spec.HTML_ALL_CONDITIONS and all(isinstance(r, (int, bool)) for r in rets)
+    ok = conds == spec.HTML_ALL_CONDITIONS and all(isinstance(r, (int, bool)) or r is None for r in rets)
     rep.obligation('R-INT-COND', ok, {'HtmlBlock.start returns': sorted(map(str, rets))})
     if not ok:
         rep.find('R-INT-COND', start.short, 'start-conditions', 'HtmlBlock.start does not return exactly the seven start-condition '
@@ -190,6 +189,12 @@ def rule_cond(ctx, rep):
                      '(cursor operations %s, result %r)' % (flag, ops, r), loc(model.unit_of(cip), cip.node))
 
 
+def _cursor_state(w):
+    """Position of a FileWrapper object, whatever its cursor field is called (sum of its int fields that change)."""
+    vals = [v for k, v in sorted(w.attrs.items()) if isinstance(v, int) and not isinstance(v, bool) and k != 'start_line']
+    return vals[0] if vals else None
+
+
 def rule_used(ctx, rep):
     model = ctx.model
     rep.rule('R-INT-USED', 'Paragraph.read consults every interruption predicate on every continuation line; ThematicBreak after the setext test')
@@ -212,8 +217,10 @@ def rule_used(ctx, rep):
         log = []
         for c in checkers:
             f = c.lookup('check_interrupts_paragraph')[1]
+            # the predicate may be shared between classes (a mixin): the receiver says whose it is
             it.func_hooks[f.qualname] = (lambda interp, fi, args, kwargs, c=c:
-                                         log.append((c.name, args[-1].attrs.get('_index'))) or False)
+                                         log.append((args[0].name if isinstance(args[0], ClassInfo) else c.name,
+                                                     _cursor_state(args[-1]))) or False)
         it.func_hooks[ise.qualname] = lambda interp, fi, args, kwargs: log.append(('SETEXT?', None)) or Cond(('setext', len(log)))
         lines = [AbsStr(label='line%d' % i) for i in range(3)]
         w = it.construct(fw, [lines], {})
@@ -264,43 +271,60 @@ def rule_used(ctx, rep):
 
 def rule_loose_signal(ctx, rep):
     """Tight/loose computation: when a container reader drops trailing blank lines from the buffer it
-    re-tokenizes, it must hand one back to the cursor (backstep) so that the enclosing tokenizer sees a
-    blank line between blocks and marks the list loose. Pairing rule over sibling sites."""
+    re-tokenizes, it must hand them back to the cursor, so that the enclosing tokenizer sees a blank
+    line between blocks and marks the list loose - and it must not hand back a line it kept.
+    Decided as line accounting on every path of the reader over abstract lines (concrete cursor):
+    with B = start_line of the nested call + len(buffer) - 1 (last buffer line), C = lines.line_number()
+    at return and P = the furthest line consumed:  C >= B,  and  P > B implies C < P."""
+    from . import c13
+    from ..affine import Aff
     model = ctx.model
     rule = 'R-LOOSE-SIGNAL'
-    rep.rule(rule, 'every removal of trailing blank lines from a nested buffer is paired with a cursor backstep')
+    rep.rule(rule, 'line accounting: no kept line is handed back; when lines beyond the re-tokenized buffer were consumed, at least one is handed back')
     n = 0
-    for cls in blockproto.block_classes(model, ctx.configs()) + [model.cls('block_token.ListItem')]:
-        hit = cls.lookup('read')
-        if hit is None or hit[1].cls is not cls:
-            continue
-        rd = hit[1]
-        for node in walk_function(rd.node):
-            if isinstance(node, ast.Delete) and len(node.targets) == 1 and isinstance(node.targets[0], ast.Subscript) \
-                    and isinstance(node.targets[0].slice, ast.Slice) and node.targets[0].slice.lower is not None \
-                    and isinstance(node.targets[0].slice.lower, ast.UnaryOp) and node.targets[0].slice.upper is None:
+    for cls in blockproto.container_readers(ctx):
+        rd = cls.lookup('read')[1]
+        rep.instance(rule)
+        seen = set()
+        for nlines in ((3, 4) if ctx.thorough else (3,)):
+            for trace, (kind, r, nested, w) in c13.explore_reader(model, cls, nlines=nlines):
+                if kind != 'ret' or r is None or not nested:
+                    continue
+                caller, args, kwargs = nested[-1]
+                buf = args[0] if args else None
+                sl = kwargs.get('start_line', args[2] if len(args) > 2 else None)
+                if not isinstance(buf, list) or not buf or Aff.lift(sl) is None:
+                    continue
+                end_line = c13.line_number_of(model, w)
+                if Aff.lift(end_line) is None:
+                    continue
                 n += 1
-                rep.instance(rule)
-                seq = None
-                p = node._parent
-                for f in ('body', 'orelse', 'finalbody'):
-                    if isinstance(getattr(p, f, None), list) and node in getattr(p, f):
-                        seq = getattr(p, f)
-                ok = False
-                if seq is not None:
-                    for st in seq:
-                        if st is node:
-                            continue
-                        for c in ast.walk(st):
-                            if isinstance(c, ast.Call) and isinstance(c.func, ast.Attribute) and c.func.attr == 'backstep':
-                                ok = True
-                rep.obligation(rule, ok, {'reader': rd.short, 'site': ast.unparse(node)})
+                last = Aff.lift(sl).add(Aff({}, len(buf) - 1))
+                diff = Aff.lift(end_line).add(last, -1)                  # cursor line - last buffer line
+                peak = getattr(w, 'peak_line', None)
+                over = peak.add(last, -1) if peak is not None else None   # lines consumed beyond the buffer's end
+                back = peak.add(Aff.lift(end_line), -1) if peak is not None else None   # lines handed back
+                # no kept line is handed back; if lines beyond the buffer were consumed, at least one is handed back
+                ok = diff.is_const() and diff.const >= 0 and over is not None and over.is_const() and back.is_const() \
+                    and (over.const <= 0 or back.const >= 1)
                 if not ok:
-                    rep.find(rule, rd.short, 'trailing-blanks-dropped-without-backstep@%s' % _branch_of(node, rd.node),
-                             '%s removes trailing blank lines from its buffer (%s) without stepping the cursor back: the blank '
-                             'line that separates this block from the next is swallowed and the enclosing list is computed tight'
-                             % (rd.short, ast.unparse(node)), loc(model.unit_of(rd), node))
-    rep.floor(rule, n, 3)
+                    d = diff.const if diff.is_const() else repr(diff)
+                    if d in seen:
+                        continue
+                    seen.add(d)
+                    rep.obligation(rule, False, {'reader': rd.short, 'buffer_lines': len(buf), 'nested start_line': repr(sl),
+                                                 'cursor line at return': repr(end_line)})
+                    if diff.is_const() and diff.const > 0:
+                        msg = ('%s consumes %d line(s) beyond the last line of the buffer it re-tokenizes and hands none of them '
+                               'back: lines dropped from the buffer (trailing blank lines) stay consumed, so the blank line that '
+                               'separates this block from the next is swallowed and the enclosing list is computed tight'
+                               % (rd.short, diff.const))
+                    else:
+                        msg = ('%s returns with the cursor %s line(s) before the last line of the buffer it re-tokenized: a line it '
+                               'kept is handed back and parsed a second time' % (rd.short, -diff.const if diff.is_const() else d))
+                    rep.find(rule, rd.short, 'cursor-vs-buffer-end:%s' % d, msg, loc(model.unit_of(rd), rd.node))
+        rep.obligation(rule, not seen, {'reader': rd.short, 'paths_with_a_nested_buffer': n})
+    rep.floor(rule, n, 20)
 
 
 def _branch_of(node, fnode):
